@@ -53,7 +53,7 @@ MANIFEST = {
     "spans satisfy it).",
     "technique": "Lean 4 proof over a hand-written model + differential correspondence with diagnostic.py",
     "design_ref": "DESIGN.md §5 C29",
-    "ready": False,
+    "ready": True,
 }
 
 FILE = "<unknown>"
